@@ -402,6 +402,37 @@ def object_history(part, job):
         if w.shape != np.asarray(ref).shape or not (np.abs(w - ref).max() <= tol(L) * 50 * max(1.0, float(np.abs(ref).max()))):
             part.fail("object-history:reference", "fresh-object answer of %s differs from the independent reference" % n, {"kind": "objhist", "L": L, "depth": depth})
             return
+    # after an error: the FIRST thing (or the thing in between) an object is asked is a call it refuses - samples transposed, too few
+    # latitude rows, coefficients of the wrong dtype / length; it raises, and every valid call afterwards answers like a fresh object
+    refused = {
+        "analysis(transposed)": lambda s: s.analysis(np.ascontiguousarray(fc.T)),
+        "analysis(rows missing)": lambda s: s.analysis(fr[: max(1, fr.shape[0] // 2)]),
+        "synthesis(float64)": lambda s: s.synthesis(np.ascontiguousarray(cc.real)),
+        "synthesis(too short)": lambda s: s.synthesis(cc[:5]),
+        "eval(too short)": lambda s: s.evaluate_at_points(cc[:7], th1, ph1),
+        "analysis(1-D)": lambda s: s.analysis(fr.ravel()),
+    }
+    for rname, rfn in refused.items():
+        for pre in (None,) + tuple(names[:1] + names[4:6]):
+            s = SHT(L)
+            part.ev()
+            try:
+                if pre:
+                    calls[pre](s)
+                try:
+                    rfn(s)
+                    part.count("refused_call_answered")
+                except Exception:
+                    pass
+                for n in names:
+                    part.tr()
+                    got = calls[n](s)
+                    if not (np.abs(np.asarray(got) - want[n]).max() <= tol(L) * 20):
+                        part.fail("object-history:%s-after-refused" % n.split("(")[0], "L=%d: %s on an SHT object returns another answer than on a fresh object after %s had been refused (raised)%s"
+                                  % (L, n, rname, " following %s" % pre if pre else " as the object's first call"), {"kind": "objhist", "L": L, "depth": depth})
+                        break
+            except Exception as e:
+                part.fail("object-history:raise-after-refused", "L=%d: a valid call raised %r after %s had been refused" % (L, e, rname), {"kind": "objhist", "L": L, "depth": depth})
     seen = set()
     for D in range(2, depth + 1):
         for hist in itertools.product(range(len(names)), repeat=D):
